@@ -136,6 +136,10 @@ class CliClient:
 
     async def send(self, line):
         with contextlib.suppress(Exception):
+            self.nsent = getattr(self, "nsent", 0) + 1
+            if self.nsent % 2 == 0:
+                # the user presses Enter on an empty / blank line first: the CLI sends nothing
+                self.proc.stdin.write(b"\n   \n")
             self.proc.stdin.write(line.encode() + b"\n")
             await self.proc.stdin.drain()
 
@@ -171,13 +175,17 @@ async def scenario(kind, labels, expected, clients_kind, repo_src):
     path = os.path.join(tmp, "s.sock")
     env = dict(os.environ)
     env["PYTHONPATH"] = repo_src
+    # unusual but legal server kwargs, passed through to asyncio.start_(unix_)server: with
+    # start_serving=False the asyncio server starts accepting only inside serve_forever()
+    import zlib
+    skw = {"start_serving": False} if zlib.crc32(" ".join(labels).encode()) % 3 == 0 else {}
     if kind == "unix":
-        server = UnixControlServer(pool, socket_path=path)
+        server = UnixControlServer(pool, socket_path=path, **skw)
         cli_args = ["unix", path]
         opener = lambda: asyncio.open_unix_connection(path)     # noqa: E731
     else:
         port = free_port()
-        server = TCPControlServer(pool, host="127.0.0.1", port=port)
+        server = TCPControlServer(pool, host="127.0.0.1", port=port, **skw)
         cli_args = ["tcp", "127.0.0.1", str(port)]
         opener = lambda: asyncio.open_connection("127.0.0.1", port)   # noqa: E731
     task = None
